@@ -208,3 +208,36 @@ package idxfile
 //gvc:  loop 2 invariant pos: true
 //gvc:  sink Write requires onename: len(arg0) == ite(idx.objectIDSize != 0, idx.objectIDSize, 20)
 //gvc:end
+
+// Size gate of the in-memory decoder (property C10: "the index go-git writes
+// decodes back", "malformed index files are rejected"). An idx v2 file with
+// nr objects, hash size hs and n64 entries in the 64-bit offset table is
+// exactly 8 + 1024 + nr*(hs + 4 + 4) + 8*n64 + 2*hs bytes long; the writer
+// produces 0 <= n64 <= nr. Every such size must pass, every size outside
+// that range must be refused.
+//gvc:func minIdxV2Size
+//gvc:  props C10
+//gvc:  theory int
+//gvc:  requires sane: 0 <= nr && 0 <= hashsz && hashsz <= 64
+//gvc:  ensures val: 0 <= nr && nr <= 0xffffffff && (hashsz == 20 || hashsz == 32) ==> result == 1032 + 2 * hashsz + nr * (hashsz + 8)
+//gvc:end
+
+//gvc:func maxIdxV2Size
+//gvc:  props C10
+//gvc:  theory int
+//gvc:  requires sane: 0 <= nr && 0 <= hashsz && hashsz <= 64
+//gvc:  ensures val: 0 <= nr && nr <= 0xffffffff && (hashsz == 20 || hashsz == 32) ==> result == 1032 + 2 * hashsz + nr * (hashsz + 8) + ite(nr == 0, 0, 8 * (nr - 1))
+//gvc:end
+
+//gvc:func validateIdxV2Size
+//gvc:  props C10
+//gvc:  theory int
+//gvc:  let nr = idx.Fanout[255]
+//gvc:  let hs = ite(idx.objectIDSize != 0, idx.objectIDSize, 20)
+//gvc:  let lo = 1032 + 2 * hs + nr * (hs + 8)
+//gvc:  requires nn: idx != nil
+//gvc:  requires hs: 0 <= idx.objectIDSize && idx.objectIDSize <= 64
+//gvc:  ensures accepts: (hs == 20 || hs == 32) && lo <= idxSize && idxSize <= lo + 8 * nr ==> result == nil
+//gvc:  kf F70 accepts: nr >= 1 && idxSize > lo + 8 * (nr - 1)
+//gvc:  ensures rejects: (hs == 20 || hs == 32) && result == nil ==> lo <= idxSize && idxSize <= lo + 8 * nr
+//gvc:end
